@@ -13,8 +13,10 @@ MUTANTS = [
     ('height for every medium', [('mininec.Medium.as_basic_input', "        if self.prev:\n            # HEIGHT OF MEDIA:", "        if True:\n            # HEIGHT OF MEDIA:")], ['media-prompts']),
     ('second wire end not snapped to the ground', [('mininec.Wire.compute_ground', "        if abs (self.p2 [-1]) < eps:\n            self.p2 [-1] = 0.0\n", "")], ['grounded-end']),
     ('unit factors as a numpy integer power', [('mininec.Laplace_Load.as_basic_input', "                f = 10 ** (6 * d)", "                f = (10 ** (6 * np.arange (self.degree + 1))) [d]")], ['integer-power']),
+    ('distributed load answers memoised per object', [('mininec.Distributed_Load.as_basic_input', "            z = self.impedance (self.geobj.parent.parent.f, pulse)", "            if pulse.geobj not in zc:\n                zc [pulse.geobj] = self.impedance (self.geobj.parent.parent.f, pulse)\n            z = zc [pulse.geobj]"), ('mininec.Distributed_Load.as_basic_input', "        r = []\n", "        r = []\n        zc = {}\n")], ['local-memo']),
 ]
 REFACTORS = [
     ('source triple via temporaries', [('mininec.Excitation.as_basic_input', "r.append ('%d, %g, %g' % (self.idx + 1, self.magnitude, self.phase_d))", "ph = self.phase_d\n        r.append ('%d, %g, %g' % (self.idx + 1, self.magnitude, self.phase_d))")]),
     ('unit factors as a float power', [('mininec.Laplace_Load.as_basic_input', "                f = 10 ** (6 * d)", "                f = (10.0 ** (6 * np.arange (self.degree + 1))) [d]")]),
+    ('distributed load answers memoised per pulse', [('mininec.Distributed_Load.as_basic_input', "            z = self.impedance (self.geobj.parent.parent.f, pulse)", "            if pulse not in zc:\n                zc [pulse] = self.impedance (self.geobj.parent.parent.f, pulse)\n            z = zc [pulse]"), ('mininec.Distributed_Load.as_basic_input', "        r = []\n", "        r = []\n        zc = {}\n")]),
 ]
